@@ -77,9 +77,10 @@ type Lemma struct {
 }
 
 type UFunc struct {
-	Name   string
-	Result string
-	Pkg    string
+	Name    string
+	Result  string
+	Pkg     string
+	Witness bool // "ufunc f(..) int witness": applications inside an instantiated universal become instantiation candidates themselves (skolem functions of existentials)
 }
 
 type GlobalDecl struct {
@@ -303,7 +304,13 @@ func (db *ContractDB) loadFile(path, defaultPkg string) {
 				continue
 			}
 			n := strings.TrimSpace(d.rest[:k])
-			db.UFuncs[n] = &UFunc{Name: n, Result: strings.TrimSpace(d.rest[e+1:]), Pkg: pkg}
+			res := strings.TrimSpace(d.rest[e+1:])
+			wit := false
+			if strings.HasSuffix(res, " witness") {
+				wit = true
+				res = strings.TrimSpace(strings.TrimSuffix(res, " witness"))
+			}
+			db.UFuncs[n] = &UFunc{Name: n, Result: res, Pkg: pkg, Witness: wit}
 		case "ghosttype":
 			f := strings.SplitN(d.rest, " ", 2)
 			if len(f) == 2 {
